@@ -1,5 +1,7 @@
 import PkgModel.Email
+import PkgModel.Spec.Metadata
 import PkgProofs.Lemmas.Assoc
+import PkgProofs.Lemmas.Utf8
 /-!
 # C18 — `parse_email` is a lossless, typed partition of the document
 
@@ -9,6 +11,21 @@ quantify over arbitrary such documents and over every iteration order of `frozen
 -/
 namespace C18
 open Py Gen.Meta Meta Email
+
+/-! ### 0. the regenerated tables are the specification's -/
+
+/-- `_EMAIL_TO_RAW_MAPPING` maps exactly the 30 lower-cased header names of the core metadata specification to
+their `RawMetadata` keys, and `_STRING_FIELDS` / `_LIST_FIELDS` / `_DICT_FIELDS` carry the declared types -/
+theorem mapping_table :
+    (∀ f : Field, aget (lowerStr (MetaSpec.headerName f)) emailToRaw = some f.rawName) ∧
+    emailToRaw.length = Field.all.length ∧
+    (∀ f : Field, stringFields.contains f.rawName = (MetaSpec.fieldType f == .str) ∧
+                  listFields.contains f.rawName = (MetaSpec.fieldType f == .list) ∧
+                  dictFields.contains f.rawName = (MetaSpec.fieldType f == .dict)) ∧
+    stringFields.length + listFields.length + dictFields.length + 1 = Field.all.length := by
+  refine ⟨?_, by decide +kernel, ?_, by decide +kernel⟩
+  · intro f; cases f <;> decide +kernel
+  · intro f; cases f <;> decide +kernel
 
 /-! ### 1. folds of dict assignments -/
 
@@ -377,6 +394,14 @@ theorem bad_chunk_invalid {doc : Doc} {n l : Str} {chunks : List (List Nat)} {b 
   have := List.all_eq_true.mp hall (decodeVal (.hdr chunks)) (List.mem_map_of_mem h1)
   rw [h2] at this
   cases this
+
+/-- … where "does not decode" means, by `Utf8.utf8Decode_none_iff`, that the chunk is not the UTF-8 encoding of any
+sequence of Unicode scalar values -/
+theorem bad_chunk_not_utf8 {doc : Doc} {n l : Str} {chunks : List (List Nat)} {b : List Nat}
+    (hm : (n, HVal.hdr chunks) ∈ doc.hdrs) (hl : lowerStr n = l) (hb : b ∈ chunks)
+    (hbad : ∀ s : Str, s.all Utf8.isScalar = true → Utf8.encode s ≠ b) :
+    classify doc l = .unparsed (vals doc l) :=
+  bad_bytes_unparsed (bad_chunk_invalid hm hl hb ((Utf8.utf8Decode_none_iff b).mpr hbad))
 
 /-- **unknown names** go to `unparsed` with all their values -/
 theorem unknown_unparsed {doc : Doc} {l : Str} (h : aget l emailToRaw = none) :
